@@ -97,7 +97,11 @@ func (s *Server) serveOne(ctx context.Context, sc *simnet.SimConn) error {
 		}
 		rpc := string(f[1:])
 		sctx, cancel := context.WithCancel(ctx)
-		st := &stream{sc: sc, ctx: sctx, parent: ctx}
+		max := s.opts.Manager.Reader.MaximumBufferSize
+		if max <= 0 {
+			max = 4 << 20 // drpc's default
+		}
+		st := &stream{sc: sc, ctx: sctx, parent: ctx, max: max}
 		herr := s.handler.HandleRPC(st, rpc)
 		cancel()
 		if herr != nil {
@@ -119,6 +123,7 @@ type stream struct {
 	ctx    context.Context
 	parent context.Context
 	over   bool
+	max    int // largest message the reader accepts
 }
 
 func (s *stream) Context() context.Context { return s.ctx }
@@ -155,6 +160,12 @@ func (s *stream) MsgRecv(msg drpc.Message, enc drpc.Encoding) error {
 		}
 		switch f[0] {
 		case wire.KMessage:
+			if s.max > 0 && len(f)-1 > s.max {
+				// the real reader fails with "data overflow" and the manager drops the connection
+				s.over = true
+				s.sc.Close()
+				return drpc.ProtocolError.New("data overflow")
+			}
 			if err := enc.Unmarshal(f[1:], msg); err != nil {
 				return err
 			}
